@@ -29,13 +29,26 @@ def setup(path):
     class G(db.Entity):
         name = orm.Optional(str)
         items = orm.Set('I', nplus1_threshold=1000)
+        uitems = orm.Set('IU', nplus1_threshold=1000)
+        pitems = orm.Set('IP', nplus1_threshold=1000)
         tags = orm.Set('T', nplus1_threshold=1000)
     class I(db.Entity):
         owner = orm.Optional(G)
+        note = orm.Optional(int)
+    class IU(db.Entity):                       # the back-reference is a member of a secondary unique key
+        owner = orm.Optional(G)
+        number = orm.Required(int)
+        note = orm.Optional(int)
+        orm.composite_key(owner, number)
+    class IP(db.Entity):                       # the back-reference is a member of the primary key
+        owner = orm.Required(G)
+        number = orm.Required(int)
+        note = orm.Optional(int)
+        orm.PrimaryKey(owner, number)
     class T(db.Entity):
         groups = orm.Set(G, nplus1_threshold=1000)
     db.generate_mapping(create_tables=True)
-    return db, dict(P=P, G=G, I=I, T=T)
+    return db, dict(P=P, G=G, I=I, IU=IU, IP=IP, T=T)
 
 
 class Ctl(object):
@@ -102,24 +115,36 @@ def run_scalar(ctl, case):
 
 
 def run_coll(ctl, case):
-    G, I, T = ctl.E['G'], ctl.E['I'], ctl.E['T']; raw = ctl.raw
+    G, T = ctl.E['G'], ctl.E['T']; raw = ctl.raw
     m2m = case['m2m']
-    for t in ('G_T', 'I', 'T', 'G'): raw.execute('DELETE FROM "%s"' % t)
+    ref = case.get('ref', 'plain')             # plain | unique | pk : what the items' back-reference is part of
+    X = ctl.E[{'plain': 'I', 'unique': 'IU', 'pk': 'IP'}[ref]]
+    tab = X.__name__
+    name = 'tags' if m2m else {'plain': 'items', 'unique': 'uitems', 'pk': 'pitems'}[ref]
+    coll = getattr(G, name)
+    for t in ('G_T', 'I', 'IU', 'IP', 'T', 'G'): raw.execute('DELETE FROM "%s"' % t)
     raw.execute("INSERT INTO G (id, name) VALUES (1, 'g1'), (2, 'g2')")
     raw.execute('INSERT INTO I (id, owner) VALUES (1, 1), (2, 1), (3, 2)')
+    raw.execute('INSERT INTO IU (id, owner, number) VALUES (1, 1, 1), (2, 1, 2), (3, 2, 3)')
+    raw.execute('INSERT INTO IP (owner, number) VALUES (1, 1), (1, 2), (2, 3)')
     raw.execute('INSERT INTO T (id) VALUES (1), (2), (3)')
     raw.execute('INSERT INTO G_T (g, t) VALUES (1, 1), (1, 2)')
     raw.commit()
+    idcol = 'owner * 10 + number' if ref == 'pk' else 'id'          # how the model names an item
+    def mid(x):
+        return x.owner.id * 10 + x.number if ref == 'pk' else x.id
     def members():
         if m2m: return [r[0] for r in raw.execute('SELECT t FROM G_T WHERE g = 1 ORDER BY t')]
-        return [r[0] for r in raw.execute('SELECT id FROM I WHERE owner = 1 ORDER BY id')]
-    coll = G.tags if m2m else G.items
-    name = 'tags' if m2m else 'items'
+        return [r[0] for r in raw.execute('SELECT %s FROM %s WHERE owner = 1 ORDER BY 1' % (idcol, tab))]
     sess = S.Session(ctl.reader, orm); sess.begin()
     model, real, failed, other = [], [], False, []
     for op in case['ops']:
         if op[0] == 'move':
-            ctl.write(lambda: setattr(I[op[1]], 'owner', None if op[2] is None else G[op[2]])); continue
+            if ref == 'pk':        # a primary key cannot be changed through Pony: the other session is a raw connection
+                raw.execute('UPDATE IP SET owner = ? WHERE number = ?', (op[2], op[1])); raw.commit()
+            else:
+                ctl.write(lambda: setattr(X[op[1]], 'owner', None if op[2] is None else G[op[2]]))
+            continue
         if op[0] == 'link':
             ctl.write(lambda: G[1].tags.add(T[op[1]])); continue
         if op[0] == 'unlink':
@@ -127,26 +152,40 @@ def run_coll(ctl, case):
         if failed: continue
         def peek():
             sd = G[1]._vals_.get(coll)
-            return sorted(x.id for x in sd) if sd is not None else None
+            if sd is None: return None, None
+            pins = []
+            if not m2m:
+                for x in sd:
+                    bit = x._bits_except_volatile_.get(X.owner, 0)
+                    if x._rbits_ and x._rbits_ & bit: pins.append(mid(x))
+            return sorted(mid(x) if not m2m else x.id for x in sd), sorted(pins)
+        if op[0] == 'touch':       # the reader updates another attribute of a member it has seen (still in its cache: no query)
+            i = op[1]
+            r = sess.do(lambda: setattr(X[1, i] if ref == 'pk' else X[i], 'note', 7))
+            if r[0] == 'exc':
+                failed = True; other.append('touch: %s: %s' % (type(r[1]).__name__, str(r[1])[:200]))
+            continue
         if op[0] == 'copy':
-            model.append(['CObsCopy', members()])
-            r = sess.do(lambda: sorted(x.id for x in getattr(G[1], name)))
-            if r[0] == 'ok': real.append(['copy', r[1], r[1]])
+            model.append(['Copy', ref == 'pk' and not m2m, members()])       # Model copy_event: a pk-member back-reference gets no read bits
+            r = sess.do(lambda: (sorted((mid(x) if not m2m else x.id) for x in getattr(G[1], name)), peek()))
+            if r[0] == 'ok': real.append(['copy', r[1][0], r[1][0], r[1][1][1]])
         elif op[0] == 'len':
             model.append(['CObsLen', members()])
             r = sess.do(lambda: (len(getattr(G[1], name)), peek()))
-            if r[0] == 'ok': real.append(['len', r[1][0], r[1][1]])
+            if r[0] == 'ok': real.append(['len', r[1][0], r[1][1][0], r[1][1][1]])
         elif op[0] == 'refetch_items':
-            rows = raw.execute('SELECT id, owner FROM I ORDER BY id').fetchall()
+            rows = raw.execute('SELECT %s, owner FROM %s ORDER BY 1' % (idcol, tab)).fetchall()
             model += [['CItemReload', i, o == 1] for i, o in rows]
             k = ctl.fresh()
-            r = sess.do(lambda: [x.id for x in I.select(lambda x: x.id > k)[:]])
+            if ref == 'pk': r = sess.do(lambda: [x.number for x in X.select(lambda x: x.number > k)[:]])
+            else: r = sess.do(lambda: [x.id for x in X.select(lambda x: x.id > k)[:]])
         elif op[0] == 'refetch_item':
             i = op[1]
-            rows = raw.execute('SELECT id, owner FROM I WHERE id = ?', (i,)).fetchall()
+            rows = raw.execute('SELECT %s, owner FROM %s WHERE %s = ?' % (idcol, tab, 'number' if ref == 'pk' else 'id'), (i,)).fetchall()
             model += [['CItemReload', j, o == 1] for j, o in rows]
             k = ctl.fresh()
-            r = sess.do(lambda: [x.id for x in I.select(lambda x: x.id == i and x.id > k)[:]])
+            if ref == 'pk': r = sess.do(lambda: [x.number for x in X.select(lambda x: x.number == i and x.number > k)[:]])
+            else: r = sess.do(lambda: [x.id for x in X.select(lambda x: x.id == i and x.id > k)[:]])
         elif op[0] == 'load_rev':
             t = op[1]
             linked = raw.execute('SELECT count(*) FROM G_T WHERE g = 1 AND t = ?', (t,)).fetchone()[0] == 1
@@ -157,8 +196,13 @@ def run_coll(ctl, case):
         if r[0] == 'exc':
             failed = True
             if type(r[1]).__name__ != 'UnrepeatableReadError': other.append('%s: %s' % (type(r[1]).__name__, str(r[1])[:300]))
+    commit = 'not-requested'
+    if case.get('commit') and not failed:
+        e = sess.leave(None)
+        commit = 'committed' if e is None else type(e).__name__
     sess.abort()
-    return {'failed': failed, 'events': real, 'model': model, 'other': other, 'lock_left_held': ctl.db.provider.transaction_lock.locked()}
+    return {'failed': failed, 'events': real, 'model': model, 'other': other, 'commit': commit,
+            'lock_left_held': ctl.db.provider.transaction_lock.locked()}
 
 
 def main():
